@@ -147,6 +147,13 @@ JMetaAcc(fn, in, rr, cls) ==
              /\ PairsMatch(a.entries[i].pairs, RefReadMapping(Drop(eb, HashLen + 6)).pairs)
              /\ a.entries[i].bytes = eb
        /\ SigMatches(a.sig, in, r.sigOff, ClosingSigType(r.h)), cls),
+     \* GetEntry(i) succeeds exactly for 0 <= i < n and returns entry i; FindEntriesByType(t) is the subsequence of that type
+     R("C02", "metaleaseset_entry_lookups", r.ok /\ rr.ok /\ "getentry" \in DOMAIN a,
+       LET EB(i) == Slice(in, r.entryStarts[i], EntryEndOf(i) - r.entryStarts[i])
+           OfType(t) == SelectSeq([i \in 1..r.ne |-> EB(i)], LAMBDA eb : eb[HashLen + 1] = t) IN
+       /\ \A k \in 1..Len(a.getentry) : LET g == a.getentry[k] IN
+             g.ok = (g.i \in 0..(r.ne - 1)) /\ (g.ok => g.bytes = EB(g.i + 1))
+       /\ \A k \in 1..Len(a.bytype) : a.bytype[k].entries = OfType(a.bytype[k].t), cls),
      R("C15", "metaleaseset_times_exact", r.ok /\ rr.ok,
        /\ HeaderTimesExact(a, in, r.h.d.consumed)
        /\ \A i \in 1..r.ne : TimeIs(a.entries[i].expires_time, Slice(in, r.entryStarts[i] + HashLen + 1, 4), 0), cls),
